@@ -147,7 +147,9 @@ pub fn literal(rng: &mut Rng, p: P, pay: Payloads) -> Vec<u8> {
         }
         (P::Blk, Payloads::Special) | (P::Blk, Payloads::SpecialNl) => {
             let pad = if rng.chance(1, 5) { rng.below(8) } else { 0 };
-            block(&special_blk_payload(rng, 12, pay == Payloads::SpecialNl), pad)
+            // mostly short payloads, now and then hundreds of bytes
+            let max = if rng.chance(1, 40) { *rng.pick(&[255usize, 256, 300, 600]) } else { 12 };
+            block(&special_blk_payload(rng, max, pay == Payloads::SpecialNl), pad)
         }
         _ => plain_literal(rng, p),
     }
